@@ -33,12 +33,7 @@
    The loop may not terminate for an arbitrary [inflate] (a block that holds a CBLOCK record whose inflation is the same
    block): [r_loop_c n f] runs at most n CBLOCK records and restarts the per-byte fuel f at every block (Hang beyond).
 
-   WRITER.  Library::write_oas with compression_level > 0: after the CELL record out.cursor = out.data, everything the
-   cell writes goes to memory, then (if anything was written) deflateInit2(level, Z_DEFLATED, -15, 8,
-   Z_DEFAULT_STRATEGY), deflate(Z_FINISH) over (uInt)size bytes, and CBLOCK 0 size total_out bytes - always, also when the
-   data did not shrink; an empty cell gets no CBLOCK.  START, the library properties, the CELL records, every name table
-   and END are never compressed.  ftell() positions (S_CELL_OFFSET, table offsets in END) are those of the compressed
-   file.  [deflate] is a Section variable (the level is part of it).
+   The writer side (compression_level > 0) is OasisCblockWrite.v.
    Definitions only; proofs in OasisCblockProofs.v. *)
 Require Import Base OasisInt OasisSpec OasisRead.
 Local Open Scope N_scope.
